@@ -131,8 +131,8 @@ def c11_families(tier):
         fams.append(dict(
             name='four_ports_small',
             what='every tree with <= 4 ports below the root, depth <= 2, <= 2 ports per namespace, over 5 leaf variants, 4 namespace '
-                 'variants (2 at level 2), 2 roots; small value domain as in the quick tier',
-            trees=trees(ROOTS_TWO, LEAVES_SMALL_IN, NS_SMALL_IN, NS2_SMALL_IN, 4, 2), inst=inputs_of(**IN_VALS_SMALL)))
+                 'variants (2 at level 2), default root; small value domain as in the quick tier',
+            trees=trees([ROOT_DEFAULT], LEAVES_SMALL_IN, NS_SMALL_IN, NS2_SMALL_IN, 4, 2), inst=inputs_of(**IN_VALS_SMALL)))
     return fams
 
 
